@@ -1,5 +1,6 @@
 (* C02 -- Collections hold what the history says, one dataset per type + data ID.
-   Statements only; every proof is `exact <lemma>` from Proofs/RegistryProofs.v / RegistryProofsX1-5.v.
+   Statements only; every proof is `exact <lemma>` (or a projection of one) from Proofs/RegistryProofs.v / RegistryProofsX1-7.v
+   (first layer, Model/Registry.v + Model/RegistryAbs.v) and Proofs/RegistryXProofs1-3.v (second layer, Model/RegistryX.v).
    `run h` is the state after the history h (fold_left of `step` from the empty registry); histories range over
    ALL lists of operations with arbitrary (also invalid) arguments. *)
 From Coq Require Import NArith List Bool Lia.
